@@ -604,6 +604,7 @@ func runC10(c *Ctx) {
 		wants := map[string][]want{
 			"sshFxpOpenPacket":             {{"Flags", "Pflags"}, {"Attrs", "Attrs"}},
 			"sshFxpSetstatPacket":          {{"Flags", "Flags"}, {"Attrs", "Attrs"}},
+			"sshFxpMkdirPacket":            {{"Flags", "Flags"}, {"Attrs", "Attrs"}},
 			"sshFxpRenamePacket":           {{"Target", "Newpath"}},
 			"sshFxpSymlinkPacket":          {{"Target", "Linkpath"}, {"Filepath", "Targetpath"}},
 			"sshFxpExtendedPacketHardlink": {{"Target", "Newpath"}},
